@@ -658,6 +658,15 @@ func cmdCheck(args []string) int {
 			if !counts(nk, nf.outcome.Outcome) {
 				continue
 			}
+			if nk == "ASSERT" && poolIdentityLabel(nf.outcome.Outcome) {
+				// harness plumbing ("the pool handed out the very object the harness prepared"): the
+				// engine's sync.Pool is a LIFO list, the native one may hand out another object (GC,
+				// scheduling) - that says nothing about the property
+				msg := fmt.Sprintf("INCONCLUSIVE property=%s harness=%s native pool order differs on a sampled path (%s)", prop, hr.cfg.Func, nf.outcome.Outcome)
+				fmt.Println(msg)
+				notes = append(notes, msg)
+				continue
+			}
 			key := fmt.Sprintf("%s/NATIVE:%s", hr.cfg.Func, nf.outcome.Outcome)
 			skey := strings.ReplaceAll(key, " ", "_")
 			if desc, ok := known.known[prop+" "+skey]; ok {
@@ -676,6 +685,17 @@ func cmdCheck(args []string) int {
 		return 1
 	}
 	return 0
+}
+
+// poolIdentityLabel: assertion labels of the harnesses that only state WHICH pooled object was handed out.
+func poolIdentityLabel(outcome string) bool {
+	for _, l := range []string{"operation-reused-the-predecessors-task", "pool-handed-out-the-", "recycled-index-entries-were-used",
+		"stale-parser-was-the-one-used", "stale-task-was-the-one-used", "successor-reused-the-predecessors-parser"} {
+		if strings.Contains(outcome, l) {
+			return true
+		}
+	}
+	return false
 }
 
 type replayFile struct {
